@@ -96,8 +96,9 @@ PLANS = {
                                 Method='{"r0", "r1", "r2", "g8", "g16"}'), {"clones": 2, "twin": True}, None)],
         "thorough": [("c18t", inst(LeafFam="<-C18Leaves", MaxLeaves=2, MaxCalls=3, PermOn=True,
                                    Method='{"r0", "r1", "r2", "g8", "g16"}'), {"clones": 3, "twin": True}, None),
-                     ("c18t4", inst(LeafFam="<-C18LeavesQ", MaxLeaves=4, MaxCalls=6, PermOn=True,
-                                    Method='{"r0", "r1", "r2", "g8", "g16"}'), {"clones": 3, "twin": True}, {"num": 200000, "depth": 9})],
+                     # (a simulated 4-clause instance spends its time enumerating the initial states: clause lists x admissible permutations)
+                     ("c18t3", inst(LeafFam="<-C18LeavesQ", MaxLeaves=3, MaxCalls=3, PermOn=True,
+                                    Method='{"r0", "r1", "r2", "g8", "g16"}'), {"clones": 3, "twin": True}, None)],
     },
     "C11": {
         "quick": [("c11m", inst(LeafFam="<-C11Leaves", MaxLeaves=2, MaxCalls=3, PoisonSet="<-cPoison", UpFam="<-cUpBoth", StrictFam="<-cStrictOnly",
